@@ -5,7 +5,7 @@ META = dict(
     level="other",
     claim="Caller side of the System V calling convention, per signature: the real gen_expr(ND_FUNCALL) (push_args, push_args2, push_struct, has_flonum, register loading loop, alignment padding) is executed on the ghost machine and, at the emitted call instruction, every argument is where psABI 3.2.3 places it (general/vector register by eightbyte class, memory arguments in order at rsp), %al counts the vector registers, rsp is 16-byte aligned, and afterwards the stack is restored. Argument values and struct contents are symbolic (proof per signature); the set of signatures is a chosen list that exhausts the general and vector registers with scalars and all six small-aggregate classes, so the quantifier over signatures is bounded.",
     note="Trusted: CBMC, ghost machine, spec/psabi_call.h. Not covered in this revision: callee-side parameter homes and register spill, struct returns, variadic register save area and va_arg. Known finding: long double (16-byte aligned) memory arguments are not aligned.",
-    functions=["codegen.c:gen_expr", "codegen.c:push_args", "codegen.c:push_args2", "codegen.c:push_struct", "codegen.c:has_flonum", "codegen.c:struct_regs", "codegen.c:has_flonum1", "codegen.c:has_flonum2", "codegen.c:popf", "codegen.c:pop", "codegen.c:pushf", "codegen.c:push"],
+    functions=["codegen.c:gen_expr", "codegen.c:push_args", "codegen.c:push_args2", "codegen.c:push_struct", "codegen.c:has_flonum", "codegen.c:struct_regs", "codegen.c:has_flonum1", "codegen.c:has_flonum2", "codegen.c:popf", "codegen.c:pop", "codegen.c:pushf", "codegen.c:push", "codegen.c:assign_lvar_offsets", "codegen.c:emit_text", "codegen.c:store_gp", "codegen.c:store_fp", "codegen.c:copy_struct_reg", "codegen.c:copy_ret_buffer"],
     trusted_base=["CBMC 6.11", "spec/x86_ghost.h", "spec/psabi_call.h"],
     assumptions=["argument expressions are abstract (their values/addresses symbolic)", "the callee clobbers caller-saved registers only"],
     explanation="per-signature proofs over a chosen signature list (bounded in the signature quantifier)",
@@ -21,6 +21,17 @@ def jobs(tier):
             js.append(Job(name=f"call-{sg or 'void'}-sp{sp0}", src="call.c", group="C06 caller", defs={"SIG": '\'"%s"\'' % sg, "SP0": str(sp0)},
                           tier="quick" if quick else "thorough", bounded="chosen signature list (values symbolic)",
                           sample=f"call with argument classes '{sg}', {sp0} word(s) already pushed", **CG))
+    PL = dict(units=["type.c"], mode="plain", cut=["error", "error_tok", "error_at", "warn_tok"], no_checks=["signed-overflow", "undefined-shift"], timeout=600, replay=None)
+    for sg in ["", "i", "d", "f", "iiiiii", "iiiiiii", "dddddddd", "ddddddddd", "p", "q", "r", "s", "t", "u", "m", "iiiiip", "iiiiipi", "iiiiir", "iiiiiri", "dddddddsd", "dddddddq", "iiiiit", "iiiiiiu", "pqpq", "idrt", "iiiiiim"]:
+        js.append(Job(name=f"callee-{sg or 'void'}", src="callee.c", group="C06 callee", defs={"SIG": '\'"%s"\'' % sg}, bounded="chosen signature list (values symbolic)",
+                      sample=f"function with parameter classes '{sg}': homes and register spill", **PL))
+    for shp, nm in ((0, 1), (0, 2), (0, 3), (0, 4), (1, 0), (2, 0), (3, 0)):
+        js.append(Job(name=f"flonum-shape{shp}" + (f"-n{nm}" if nm else ""), src="flonum.c", group="C06.1 eightbyte classification", defs={"SHAPE": str(shp), "NMEM": str(nm)}, unwindset=["has_flonum.0:6", "has_flonum.1:5"],
+                      bounded="four aggregate shape families, at most 16 bytes", sample=f"has_flonum/struct_regs on shape family {shp} with symbolic leaf types", **PL))
+    for cls in "pqrstu":
+        for side in (0, 1):
+            js.append(Job(name=f"ret-{cls}-{'caller' if side else 'callee'}", src="ret.c", group="C06 aggregate return", defs={"CLS": "\"'%s'\"" % cls, "SIDE": str(side)},
+                          sample=f"struct of class '{cls}' returned in registers, {'caller' if side else 'callee'} side", **PL))
     js.append(Job(name="call-iiiiiiil-sp0", src="call.c", group="C06 caller", defs={"SIG": '\'"iiiiiiil"\'', "SP0": "0", "LDOUBLE_ALIGN": ""},
                   bounded="chosen signature list (values symbolic)", sample="long double memory argument after an odd number of stack words", **CG))
     return js
